@@ -997,7 +997,18 @@ pub fn gen_op(m: &Model, p: &Profile, seed: &OpSeed) -> Option<Op> {
         }
         K::Wallops => format!("WALLOPS :{}", s.choose(TEXTS)),
         K::Kill => format!("KILL {} :{}", nick_pick(m, p, &mut s, true), s.choose(TEXTS)),
-        K::Whowas => format!("WHOWAS {}", nick_pick(m, p, &mut s, false)),
+        K::Whowas => {
+            // half of the time a nickname with a history - one that is in use again, if there is one
+            let hist: Vec<&String> = m.whowas.keys().collect();
+            let reused: Vec<&String> = hist.iter().cloned().filter(|n| m.users.contains_key(n.as_str())).collect();
+            if !reused.is_empty() && s.chance(35) {
+                format!("WHOWAS {}", reused[s.pick(reused.len())])
+            } else if !hist.is_empty() && s.chance(30) {
+                format!("WHOWAS {}", hist[s.pick(hist.len())])
+            } else {
+                format!("WHOWAS {}", nick_pick(m, p, &mut s, false))
+            }
+        }
         K::CapPost => ["CAP END", "CAP END", "CAP LS 302", "CAP REQ :multi-prefix", "CAP LIST", "CAP REQ :bogus-cap", "PASS again", "USER again 0 * :Again", "USER mallory 0 * :Mallory"][s.pick(9)].to_string(),
         K::Die => {
             if s.chance(50) {
